@@ -49,7 +49,7 @@ def check_one(wd, name, dump):
     # read off the dumped graph's edge labels instead)
     extra = ["-dump", "dot,actionlabels", dot] if dump else []
     r = tlc.run_tlc(os.path.join(SPEC, "MC_BTreeConc.tla"), os.path.join(SPEC, cfg), os.path.join(wd, "conc_" + name), timeout=2700,
-                    workers=4 if dump else min(12, NCPU), extra=extra, heap="12g")
+                    workers=4 if dump else min(12, NCPU), extra=extra, heap="4g" if dump else "10g")
     return name, r, dot
 
 def run(res, wd, drv, tier):
